@@ -148,4 +148,18 @@ least the number of Serve calls that stopping the live instances of the lineage 
 theorem C16_wait_group_never_negative (ops : List Op) (l : Nat) : 0 ≤ (stateAfter State.init ops).wg l :=
   Int.le_trans (liveG_nonneg _ l) (wgCovers_after ops State.init wgCovers_init l)
 
+/-- **The signal handlers** (`sigtrap.go`, `sigtrap_posix.go`; stream `c16.signal` sends real signals to a child process).
+After any history without a shutdown signal, for any burst of signals: SIGHUPs are ignored; the first other signal decides —
+SIGTERM runs every live instance's OnShutdown then OnFinalShutdown callbacks exactly once and then stops every graceful
+server exactly once, SIGINT runs the callbacks only, SIGQUIT runs nothing — and the process exits; the model of the handlers
+(`sigRun`) satisfies the law the judge applies to what the child process really did. -/
+theorem C16_signal_path_model_ok (ops : List Op) (hns : ∀ op ∈ ops, ∀ n, op ≠ .signal n) (sigs : List Sig) :
+    signalPathLaw (stateAfter State.init ops).insts sigs (sigRun (stateAfter State.init ops) sigs).1
+      (sigRun (stateAfter State.init ops) sigs).2.isSome = none :=
+  sigRun_law (rel_reach ops) (once_false_after ops State.init rfl hns) sigs
+
+/-- the law rejects a SIGTERM that stops the servers before the shutdown callbacks ran -/
+example : signalPathLaw [⟨1, 1, ⟨[⟨.file, 1, false⟩], .none, false, false⟩⟩] [.term]
+    [.stop 1 0, .cb .sd 1 0, .cb .sd 1 1, .cb .fd 1 0, .cb .fd 1 1] true = some "shutdown-once" := by decide
+
 end Casket.Props.C16
